@@ -7,6 +7,7 @@ import sys
 import time
 
 import vcommon as vc
+import vhist
 
 
 class Run:
@@ -22,6 +23,7 @@ class Run:
         self.broken_obligations = []   # text descriptions of proof-side breakage
         self.spec_failures = []        # failing inputs found on the implementation
         self.tie_failures = []         # implementation != model
+        self.known_hits = {}           # finding id -> number of histories attributed to it
 
     # ------------------------------------------------------------ plumbing
     def violation(self, kind, payload, failing_input):
@@ -128,10 +130,15 @@ class Run:
                 searches=self.cov.get("rule", "")), False)
         wall = time.time() - self.t0
         vc.write_evidence(pid, self.tier, self.seed, self.cov, wall, len(self.violations), self.assumptions)
+        for f in vc.load_known_findings():
+            if self.pid in f.get("properties", []) and self.known_hits.get(f["id"]):
+                self.known_lines.append("KNOWN-FINDING: property=%s %s %s" % (self.pid, f["id"], f["what"]))
+        self.cov["known_findings_hit"] = dict(self.known_hits)
         for l in self.known_lines:
             print(l)
         for path, failing in self.violations:
             print("VIOLATION property=%s replay=%s%s" % (pid, path, "" if failing else " no-failing-input-found"))
+        vc.write_evidence(pid, self.tier, self.seed, self.cov, time.time() - self.t0, len(self.violations), self.assumptions)
         sys.stdout.flush()
         return 1 if self.violations else 0
 
@@ -145,6 +152,60 @@ class Run:
             fn(self)
         return self.decide()
 
+
+
+# ---------------------------------------------------------------- history suites
+
+def hist_suite(run, name, harness_args, nontrivial_rule, known=None, use_driver=True, timeout=3000):
+    """Runs one harness suite of histories; absorbs coverage; classifies failures.
+    known: optional function (HistResult, idx, text) -> finding id or None, attributing a
+    spec failure to a listed known finding."""
+    r = vhist.run_hist(harness_args, run.tier, run.seed, run.pid + "-" + name, timeout=timeout, use_driver=use_driver)
+    cov = run.cov
+    cov["suites"][name] = dict(lines=r.lines, histories=r.histories, mismatches=len(r.mismatch),
+                               spec_failures=len(r.spec) + len(r.hspec), info=r.info[-8:])
+    cov["evaluations"] += r.lines
+    cov["traces_validated_against_impl"] += r.lines if use_driver else 0
+    cov["distinct_nontrivial"] += len(r.distinct)
+    cov["rule"] = (cov["rule"] + " | " if cov["rule"] else "") + name + ": " + nontrivial_rule
+    dist = cov.setdefault("distribution", {})
+    dist[name] = dict(ops=r.ops, outcomes=r.outcomes)
+    if len(cov["samples"]) < 8:
+        body = [l for l in r.trace if l and not l.startswith("#") and not l.startswith("now ")]
+        cov["samples"] += body[5:8] + [l for l in body if " = entries" in l or " = nodes" in l or " = list x" in l][:2]
+    if r.rc != 0 or r.driver_rc != 0:
+        run.tie_failures.append(dict(suite=name, what="harness or driver crashed / timed out", rc=r.rc,
+                                     stderr=r.stderr, driver_rc=r.driver_rc, driver_err=r.driver_err))
+    tainted = set()   # history start indexes whose spec comparison is suspended by a known finding
+    def hstart(i):
+        for j in range(i, -1, -1):
+            if r.trace[j].startswith("#H "):
+                return j
+        return 0
+    fails = sorted([(i, "oracle", t) for i, t in r.spec] + [(i, "harness", t) for i, t in r.hspec])
+    for i, src, text in fails:
+        h = hstart(i)
+        if h in tainted:
+            continue
+        fid = known(r, i, text) if known else None
+        if fid:
+            tainted.add(h)
+            run.known_hits[fid] = run.known_hits.get(fid, 0) + 1
+            continue
+        tainted.add(h)   # report the first failure of a history only
+        if len(run.spec_failures) < 10:
+            run.spec_failures.append(dict(suite=name, source=src, what=text[:3000], history=vhist.history_of(r, i)))
+        else:
+            run.spec_failures_more = getattr(run, "spec_failures_more", 0) + 1
+    seen = set()
+    for i, l, m in r.mismatch:
+        h = hstart(i)
+        if h in seen:
+            continue
+        seen.add(h)
+        if len(run.tie_failures) < 10:
+            run.tie_failures.append(dict(suite=name, impl=l[:3000], model=m[:3000], history=vhist.history_of(r, i)))
+    return r
 
 # ---------------------------------------------------------------- C21
 
@@ -174,8 +235,139 @@ def check_C21(run):
                "different byte image)", len(distinct), samples)
 
 
+
+# ---------------------------------------------------------------- history-based properties
+
+DS_OF = dict(put="kv", putnow="kv", get="kv", getall="kv", range="kv", pscan="kv", psscan="kv")
+DS_OF["del"] = "kv"
+for _o in ("rpush", "lpush", "rpop", "lpop", "rpeek", "lpeek", "lsize", "lrange", "lrem", "lset", "ltrim"):
+    DS_OF[_o] = "list"
+for _o in ("sadd", "srem", "saremembers", "sismember", "smembers", "shaskey", "spop", "scard", "sdiff1", "sdiff2",
+           "smove1", "smove2", "sunion1", "sunion2"):
+    DS_OF[_o] = "set"
+for _o in ("zadd", "zmembers", "zcard", "zcount", "zpopmax", "zpopmin", "zpeekmax", "zpeekmin", "zrangebyscore",
+           "zrangebyrank", "zrem", "zremrangebyrank", "zrank", "zrevrank", "zscore", "zgetbykey"):
+    DS_OF[_o] = "zset"
+WRITES = {"put", "putnow", "del", "rpush", "lpush", "rpop", "lpop", "lrem", "lset", "ltrim", "sadd", "srem", "spop",
+          "smove1", "smove2", "zadd", "zpopmax", "zpopmin", "zrem", "zremrangebyrank"}
+BLIND = {"put", "putnow", "del", "rpush", "lpush", "sadd", "srem", "zadd"}   # writes that validate nothing
+
+
+def structs_of(call):
+    """(ds, bucket) pairs a call touches"""
+    t = call.split(" ")
+    ds = DS_OF.get(t[0])
+    if ds is None or len(t) < 2:
+        return set()
+    out = {(ds, t[1])}
+    if t[0] in ("sdiff2", "smove2", "sunion2") and len(t) > 3:
+        out.add((ds, t[3]))
+    return out
+
+
+def known_F21(r, idx, text):
+    """F21 (C13): the failing call reads / validates a structure that an earlier call of
+    the same write transaction modified."""
+    wrote = set()
+    j = idx - 1
+    calls = []
+    while j >= 0:
+        l = r.trace[j]
+        if l.startswith("begin ") or l.startswith("#H"):
+            break
+        calls.append(l.split(" = ")[0])
+        j -= 1
+    if j < 0 or not r.trace[j].startswith("begin w"):
+        return None
+    for c in reversed(calls):
+        if c.split(" ")[0] in WRITES:
+            wrote |= structs_of(c)
+    cur = r.trace[idx].split(" = ")[0]
+    if cur.split(" ")[0] in BLIND:
+        return None
+    if structs_of(cur) & wrote:
+        return "F21"
+    return None
+
+
+def check_hist_generic(run, suites, known=None):
+    for name, prof, nq, nt, rule in suites:
+        n = nq if run.tier == "quick" else nt
+        hist_suite(run, name, ["hist", "-n", n, "-x", prof], rule, known=known)
+
+
+RULE_HIST = ("random histories (reset, open with random RAM index mode x RWMode x StartFileLoadingMode x SyncEnable x "
+             "segment size 150..400, transactions of 1-5 calls, commit/rollback, calls on finished transactions, "
+             "reopen with full observation) executed on the real library; every call's result is compared with the "
+             "extracted engine model AND with the L0 specification; a case is one call, distinct by its text")
+
+
+def check_C01(run):
+    check_hist_generic(run, [("kv", "kv", 400, 8000, RULE_HIST + "; profile kv: Put/PutWithTimestamp/Delete/Get/GetAll/"
+                              "RangeScan/PrefixScan/PrefixSearchScan, TTLs on both sides of expiry, exact-fill and oversize entries")])
+
+
+def check_C03(run):
+    check_hist_generic(run, [("scan", "scan", 400, 8000, RULE_HIST + "; profile scan: dense key space with many deleted and "
+                              "expired keys inside the scanned prefixes, offset 0..5, limit -1..5, regexps"),
+                             ("pages", "pages", 40, 600, "paging sweep: for random contents over 7 keys x {live, deleted, expired, "
+                              "absent} every (prefix, offset 0..n+1, limit 1..n+1) PrefixScan and offset-0 PrefixSearchScan; the "
+                              "harness also concatenates the pages offset=0,limit,2*limit.. and compares with the live keys")])
+
+
+def check_C04(run):
+    check_hist_generic(run, [("frame", "frame", 300, 6000, RULE_HIST + "; profile frame: bucket names '', a, ab, abc, b and keys "
+                              "bc, c, b, a, ab, abc (coinciding bucket+key concatenations), all four structures; the L0 "
+                              "specification is a map bucket -> structure, so any cross-bucket effect is a spec mismatch")])
+
+
+def check_C05(run):
+    check_hist_generic(run, [("list", "list", 500, 10000, RULE_HIST + "; profile list: RPush/LPush/pops/peeks/LSize/LRange/LRem/"
+                              "LSet/LTrim with indexes -7..7 and +-2^63, values with '|' and empty"),
+                             ("dslist", "dslist", 300, 6000, "the exported ds/list type driven directly (no transaction layer): "
+                              "random call sequences compared with ListDS.v")])
+
+
+def check_C06(run):
+    check_hist_generic(run, [("set", "set", 500, 10000, RULE_HIST + "; profile set: all 14 set calls incl. SPop (member chosen by "
+                              "the code is an oracle input checked for membership), SMove*, empty and repeated members"),
+                             ("dsset", "dsset", 300, 6000, "the exported ds/set type driven directly")])
+
+
+def check_C07(run):
+    check_hist_generic(run, [("zset", "zset", 500, 10000, RULE_HIST + "; profile zset: all 16 sorted-set calls, scores -2..3 with "
+                              "many ties, empty member key, every rank/score bound below min to above max in both orders"),
+                             ("dszset", "dszset", 300, 6000, "the exported ds/zset type driven directly under many random "
+                              "level layouts (math/rand reseeded per sequence)")])
+
+
+def check_C08(run):
+    check_hist_generic(run, [("reopen", "reopen", 300, 6000, RULE_HIST + "; profile reopen: all structures, Close/Open after half of "
+                              "the transactions with the full observation battery before and after (harness-side comparison "
+                              "'#SPEC reopen-changed' + model + spec)")])
+
+
+def check_C12(run):
+    check_hist_generic(run, [("abort", "abort", 300, 6000, RULE_HIST + "; profile abort: 35% rollbacks, 12% oversize entries at "
+                              "random positions, 25% read-only transactions calling mutating APIs, calls on finished transactions"),
+                             ("fault", "fault", 60, 1200, "fault injection: for a write transaction of k records, an I/O error is "
+                              "injected at each mutation point of Commit (with a partial write of 0, 10, 42, all-1 bytes); after "
+                              "Rollback and after reopen the full observation must equal the one before the transaction; a sync "
+                              "error after a complete write: all or nothing")])
+
+
+def check_C13(run):
+    check_hist_generic(run, [("mixed", "mixed", 300, 6000, RULE_HIST + "; profile mixed (no call reads a structure its own "
+                              "transaction wrote): per-call results and final state = serial execution on L0"),
+                             ("raw", "raw", 200, 4000, RULE_HIST + "; profile raw: transactions that read/pop/validate structures "
+                              "they already modified; impl = model must hold; spec mismatches are attributed to known finding F21 "
+                              "only when the failing call reads a structure written earlier in the same transaction")],
+                       known=known_F21)
+
+
 CHECKS = {
-    "C21": check_C21,
+    "C21": check_C21, "C01": check_C01, "C03": check_C03, "C04": check_C04, "C05": check_C05, "C06": check_C06,
+    "C07": check_C07, "C08": check_C08, "C12": check_C12, "C13": check_C13,
 }
 
 
@@ -187,9 +379,10 @@ def replay(path):
     print(json.dumps(r, indent=1)[:6000])
     lines = []
     for f in r.get("failing", []) + r.get("tie_failures", []):
-        for k in ("impl",):
-            if k in f:
-                lines.append(f[k])
+        if "history" in f:
+            lines += ["#H replay"] + [l for l in f["history"] if not l.startswith("#H")]
+        elif "impl" in f:
+            lines.append(f["impl"])
     if not lines:
         return 0
     ok, out, _ = vc.build_harness()
@@ -205,6 +398,8 @@ def replay(path):
         rc, model, err = vc.run_driver(p.stdout)
         print("--- model:")
         print(model)
-        return 0 if p.stdout.strip() == model.strip() else 1
+        print("--- spec oracle (impl vs L0 spec):")
+        print(err)
+        return 0 if (p.stdout.strip() == model.strip() and "SPEC " not in err and "#SPEC" not in p.stdout) else 1
     finally:
         shutil.rmtree(work, ignore_errors=True)
